@@ -383,8 +383,8 @@ def r6_sum(text, fn, log):
             return text
         s = operand_start(m, mk.start())
         it = text[s:mk.start()].strip()
-        if re.fullmatch(r'[\w.]+', it):
-            # a plain field path (`self.data.sum()`) is a method of that object, not an iterator reduction
+        if not re.search(r'\.(iter|into_iter|iter_mut|map|zip|filter|cloned|copied|chain|rev|enumerate|skip|take|windows|chunks|step_by)\s*\(|\.\.', it):
+            # no iterator adapter in the receiver (`self.data.sum()`, `Vector::from(..).sum()`): a method of that object, not an iterator reduction
             pos = mk.end()
             continue
         f = 'vsum' if mk.group(1) == 'sum' else 'vprod'
